@@ -957,8 +957,12 @@ static Type parse_type_with_element_impl(Stage1Parser *p, Type *element_type_out
             }
             advance(p);  /* consume '<' */
             
-            /* Parse element type - save struct name if it's array<StructName> */
-            Type element_type = parse_type_with_element(p, NULL, type_param_name_out, NULL, NULL);
+            /* Parse element type - save struct name if it's array<StructName>;
+             * an element that is itself an array keeps its own element type */
+            TypeInfo *nested_info = NULL;
+            bool nested_array = (current_token(p)->token_type == TOKEN_ARRAY);
+            Type element_type = parse_type_with_element(p, NULL, type_param_name_out, NULL,
+                                                        (type_info_out && nested_array) ? &nested_info : NULL);
             if (element_type == TYPE_UNKNOWN) {
                 return TYPE_UNKNOWN;
             }
@@ -980,9 +984,10 @@ static Type parse_type_with_element_impl(Stage1Parser *p, Type *element_type_out
                 TypeInfo *info = calloc(1, sizeof(TypeInfo));
                 info->base_type = TYPE_ARRAY;
                 
-                TypeInfo *elem_info = calloc(1, sizeof(TypeInfo));
+                TypeInfo *elem_info = (element_type == TYPE_ARRAY && nested_info) ? nested_info
+                                                                                  : calloc(1, sizeof(TypeInfo));
                 elem_info->base_type = element_type;
-                if (type_param_name_out && *type_param_name_out) {
+                if (elem_info != nested_info && type_param_name_out && *type_param_name_out) {
                     elem_info->generic_name = strdup(*type_param_name_out);
                 }
                 
